@@ -24,7 +24,7 @@ func (c *checkDef) Owns(prop string) bool {
 	return false
 }
 
-func racePackages() []string { return []string{"./cache"} }
+func racePackages() []string { return []string{"./cache", "./utils/event"} }
 
 
 var commonAssumptions = []string{
@@ -102,7 +102,49 @@ func checkC13() *checkDef {
 }
 
 func allChecks() []*checkDef {
-	return []*checkDef{checkC01(), checkC12(), checkC13(), checkC14(), checkC15()}
+	return []*checkDef{checkC01(), checkC12(), checkC13(), checkC14(), checkC15(), checkC19()}
+}
+
+type evSched struct {
+	Name     string     `json:"name"`
+	Threads  [][]string `json:"threads"`
+	Pre      []string   `json:"pre"`
+	Prop     string     `json:"prop"`
+	LastWins bool       `json:"last_wins"`
+}
+
+func eventRaceScenarios() []evSched {
+	return []evSched{
+		{Name: "subscribe-vs-fire", Pre: []string{"S0"}, Threads: [][]string{{"S1"}, {"F5"}}, Prop: "C15"},
+		{Name: "unsubscribe-vs-fire", Pre: []string{"S0", "S1"}, Threads: [][]string{{"U0"}, {"F5"}}, Prop: "C15"},
+		{Name: "unsubscribe-vs-unsubscribe", Pre: []string{"S0", "S1", "S2"}, Threads: [][]string{{"U0"}, {"U2"}}, Prop: "C15"},
+	}
+}
+
+func checkC19() *checkDef {
+	return &checkDef{
+		ID: "C19", Title: "Components follow the latest setting; unsubscribing is safe in any order", Level: "model_checking",
+		LevelText: "Event bus: every sequence over {subscribe i, unsubscribe i, fire} with 3 listeners up to depth 6 (7 thorough) on the real utils/event code, with a probe change after every step compared with the reference listener set (B6); all schedules of the notifier threads of back-to-back changes (the last value must win).",
+		LevelNote: "Trusted: instrumenter (go statement -> scheduled thread), reference set model. Component level (caches, janitor, logging, request-path switches) is covered by the scenarios listed in the evidence.",
+		Technique: "explicit-state enumeration of subscribe/unsubscribe/fire histories against a reference set model + exhaustive schedule enumeration of the asynchronous notifications",
+		DesignRef: "DESIGN.md section 4 C19, appendix B6",
+		Rule:        "all valid op sequences up to the depth (distinct by sequence; non-trivial = distinct subscribed set at the end) and all schedules within K/F/E of the notifier scenarios",
+		Assumptions: commonAssumptions,
+		Runs: func(tier string) []run {
+			depth, k := 6, 2
+			if tier == "thorough" {
+				depth, k = 7, 3
+			}
+			sc := []evSched{
+				{Name: "back-to-back-changes", Pre: []string{"S0"}, Threads: [][]string{{"F1", "F2"}}, Prop: "C19", LastWins: true},
+				{Name: "back-to-back-changes-2-listeners", Pre: []string{"S0", "S1"}, Threads: [][]string{{"F1", "F2"}}, Prop: "C19", LastWins: true},
+			}
+			return []run{
+				{Pkg: "./utils/event", Scenario: "event/seq", Params: map[string]int{"listeners": 3, "depth": depth}},
+				{Pkg: "./utils/event", Scenario: "event/sched", Params: sc, K: k, E: 1, F: 2, Horizon: 2000, Workers: 4},
+			}
+		},
+	}
 }
 
 // schedScenariosOf extracts the cache/sched parameter sets of a check (they double as
@@ -140,7 +182,10 @@ func checkC15() *checkDef {
 					ps = append(ps, sc)
 				}
 			}
-			return []run{{Pkg: "./cache", Scenario: "cache/sched", Params: ps, K: k, E: 1, Horizon: 5000, Race: true}}
+			return []run{
+				{Pkg: "./cache", Scenario: "cache/sched", Params: ps, K: k, E: 1, Horizon: 5000, Race: true},
+				{Pkg: "./utils/event", Scenario: "event/sched", Params: eventRaceScenarios(), K: k + 1, E: 1, Horizon: 2000, Race: true, Workers: 4},
+			}
 		},
 	}
 }
